@@ -276,6 +276,8 @@ def run(ctx):
            'rows are printed for window[0] <= pH <= window[1], both ends included (%s)' % txts,
            out, wtests[0] if wtests else writer)
 
+    common.check_ph_label_precision(ctx, 'C10.R2', prog, ['get_folding_profile_section',
+                                                          'get_charge_profile_section'])
     # ------------------------------------------------------------------ R3
     prof = mc.func('MolecularContainer.get_folding_profile')
     loops = [n for n in walk_no_nested(prof) if isinstance(n, ast.For)
